@@ -104,25 +104,36 @@ func H_C06_Crash(v *verifrt.T) {
 		e = &vEnv{v: v, root: root, stage: filepath.Join(root, "stage"), final: filepath.Join(root, "final"), logger: &vLogger{v: v}}
 		e.s = New("src", e.stage, e.final, dlog, nil, nil)
 	}
-	dup := v.Param("DUP", 0) == 1 && v.Choose("whole-file-sent-twice", 2) == 1
+	dup := 0 // 1: the whole file is sent once more, 2: only its first part
+	if v.Param("DUP", 0) == 1 {
+		dup = v.Choose("retransmission", 3)
+	}
 	crashed := v.RunUntilCrash(k, func() {
 		mkEnv()
 		e.sendPart("a", prev, h1, size, 0, m, "v1")
 		e.sendPart("a", prev, h1, size, m, size, "v1")
 		v.Quiesce()
-		if dup {
-			// lost answer: the sender transmits the whole file once more
+		if dup >= 1 {
+			// lost answer: the sender transmits the file once more (and may
+			// itself stop after the first part)
 			e.sendPart("a", prev, h1, size, 0, m, "v1")
-			e.sendPart("a", prev, h1, size, m, size, "v1")
+			if dup == 1 {
+				e.sendPart("a", prev, h1, size, m, size, "v1")
+			}
 			v.Quiesce()
 		}
 	})
+	reportedBefore := sts.ConfirmNone
 	if !crashed {
 		v.Reach("no-crash")
 		v.Assert(held || v.FileIs(filepath.Join(e.final, "a"), "v1"), "C06 without a crash the file is delivered")
-		return
+		// the process dies when it is idle, after everything above was done
+		// and answered: what the sender has been told must survive the restart
+		reportedBefore = e.s.GetFileStatus("a", v.Now())
+		v.KillProcess()
+	} else {
+		v.Reach("crashed")
 	}
-	v.Reach("crashed")
 	// restart (optionally the recovering receiver dies as well, before its
 	// k2-th file-system call, and a third receiver recovers)
 	boot := func() {
@@ -138,6 +149,11 @@ func H_C06_Crash(v *verifrt.T) {
 		}
 	} else {
 		boot()
+	}
+	if reportedBefore == sts.ConfirmPassed || reportedBefore == sts.ConfirmWaiting {
+		after := e.s.GetFileStatus("a", v.Now())
+		v.Assert(after == sts.ConfirmPassed || after == sts.ConfirmWaiting, "C06 nothing that was reported as validated is lost by a restart")
+		v.Reach("restart-when-idle")
 	}
 	// nothing unvalidated is delivered by recovery
 	for _, f := range v.Files(e.final) {
